@@ -213,6 +213,46 @@ theorem verifyBatch_perm (c : Nat) (a : Action) (nT nP : Nat) {ms ms' : List Mem
     (verifyBatch c a nT nP ms).isSome = (verifyBatch c a nT nP ms').isSome := by
   rw [Bool.eq_iff_iff, verifyBatch_isSome_iff, verifyBatch_isSome_iff, Acceptable_perm a nT nP hp]
 
+open Classical in
+/-- **C10 (verdict independent of seeds and of the recovering mode).** Whether a statement carries a seed, and
+    whether masks are requested, never changes accept/reject of a verifying call. -/
+theorem verdict_seed_mode_independent (c : Nat) (nT nP : Nat) (ms ms' : List Member)
+    (hsame : ms'.map (fun x => { x with seeded := false }) = ms.map (fun x => { x with seeded := false })) :
+    (verifyBatch c .verifyOnly nT nP ms).isSome = (verifyBatch c .recoverAndVerify nT nP ms').isSome := by
+  rw [Bool.eq_iff_iff, verifyBatch_isSome_iff, verifyBatch_isSome_iff]
+  have hlen : ms'.length = ms.length := by simpa using congrArg List.length hsame
+  have key : ∀ (P : Member → Prop), (∀ x b, P { x with seeded := b } ↔ P x) → ((∀ y ∈ ms, P y) ↔ ∀ y ∈ ms', P y) := by
+    intro P hP
+    have h1 : ∀ l : List Member, (∀ y ∈ l, P y) ↔ ∀ y ∈ l.map (fun x => { x with seeded := false }), P y := by
+      intro l; simp only [List.mem_map, forall_exists_index, and_imp, forall_apply_eq_imp_iff₂, hP]
+    rw [h1 ms, h1 ms', hsame]
+  have hne : ms ≠ [] ↔ ms' ≠ [] := by
+    rw [← List.length_pos_iff_ne_nil, ← List.length_pos_iff_ne_nil, hlen]
+  unfold Acceptable Uniform
+  simp only [hlen, hne, reduceCtorEq, false_or]
+  have k1 := key (fun y => shapeOk y = true) (fun x b => by simp [shapeOk])
+  have k2 := key (fun y => y.valid = true) (fun x b => by simp)
+  have k3 : ∀ ped n t, (∀ y ∈ ms, y.ped = ped ∧ y.n = n ∧ y.t = t ∧ y.d1 = t ∧ y.promisesFit = true) ↔
+      (∀ y ∈ ms', y.ped = ped ∧ y.n = n ∧ y.t = t ∧ y.d1 = t ∧ y.promisesFit = true) :=
+    fun ped n t => key (fun y => y.ped = ped ∧ y.n = n ∧ y.t = t ∧ y.d1 = t ∧ y.promisesFit = true) (fun x b => by simp)
+  simp only [k1, k2, k3]
+
+open Classical in
+/-- **C10 (recover-only returns the same masks).** Whenever recover-and-verify succeeds, recover-only returns the
+    same result list. -/
+theorem recoverOnly_same_masks (c : Nat) (nT nP : Nat) (ms : List Member) (r : List Bool)
+    (h : verifyBatch c .recoverAndVerify nT nP ms = some r) : verifyBatch c .recoverOnly nT nP ms = some r := by
+  rw [verifyBatch_eq] at h ⊢
+  split at h
+  · rename_i hacc
+    injection h with h; subst h
+    have : Acceptable .recoverOnly nT nP ms := by
+      obtain ⟨h1, h2, h3, h4, h5, _⟩ := hacc
+      exact ⟨h1, h2, h3, h4, h5, Or.inl rfl⟩
+    rw [if_pos this]
+    simp [maskOf]
+  · exact absurd h (by simp)
+
 /-- a valid, well-shaped member and an invalid one -/
 def good : Member := { n := 2, t := 1, m := 1, ped := 0, d1 := 1, rounds := 1, promisesFit := true, pointsOk := true, valid := true, seeded := true }
 def bad : Member := { good with valid := false }
